@@ -893,6 +893,21 @@ func driverFillEll(c *Ctx) {
 		if tm.F != "L" {
 			tm = &GItem{F: "L", Kids: []*GItem{tm}}
 		}
+		if i%10 == 7 {
+			// one leaf that holds a name and the very name the expansion will give it (q7 next to q7[0], in either order,
+			// or the chain q7, q7[0], q7[0][0]) in front of a repeat marker: all of them are renamed at once
+			f := []string{"U1", "I2", "BOOLEAN", "B", "F4", "U8"}[g.pick(6)]
+			vals := [][]interface{}{{"q7", "q7[0]"}, {"q7[0]", "q7"}, {"q7", "q7[0]", "q7[0][0]"}, {"q7[1]", "q7", "q7[0]"}}[g.pick(4)]
+			leaf := &GItem{F: f, Vals: vals}
+			kids := []*GItem{leaf, {F: "", Var: "..."}}
+			switch g.pick(3) {
+			case 1:
+				kids = []*GItem{{F: "A", Str: "head"}, leaf, {F: "", Var: "..."}, {F: "U1", Vals: []interface{}{"tail9"}}}
+			case 2:
+				kids = []*GItem{{F: "L", Kids: []*GItem{leaf}}, {F: "", Var: "..."}}
+			}
+			tm = &GItem{F: "L", Kids: kids}
+		}
 		var enames []string
 		ellNames(tm, &enames)
 		counts := map[string]interface{}{}
